@@ -86,8 +86,9 @@ pub fn launch_target_actor(
 ) -> Result<(JoinHandle<()>, TargetActorHandleSet)> {
     let (termination_sender, termination_events) = channel::bounded(1);
     let (target_invalidated_sender, target_invalidated_events) = channel::bounded(1);
-    let (target_actor_input_sender, target_actor_input_receiver) =
-        channel::bounded(crate::DEFAULT_CHANNEL_CAP);
+    // Unbounded: the relay loop forwarding into this inbox must never block, or it stops draining
+    // the bounded output queue this actor may itself be blocked on (and stops hearing SIGTERM).
+    let (target_actor_input_sender, target_actor_input_receiver) = channel::unbounded();
     #[cfg(zinoma_verif)]
     let (target_actor_input_sender, target_actor_input_receiver) =
         crate::verif::inbox_channel(target_actor_input_sender, target_actor_input_receiver);
